@@ -92,7 +92,14 @@ def execute(case):
     dt = float(grid[1] - grid[0])
     iface = None
     vol_obj = None
-    if case.get("entry", "direct") == "direct" or mode == "delayvolume" or (case.get("vol") or {}).get("spec"):
+    via_entry_iface = case.get("entry") == "iface" and mode != "delayvolume" and not (case.get("vol") or {}).get("spec")
+    if via_entry_iface:
+        # a pre-built interface handed to the entry point: its own step (the constructor's default, or one left by an
+        # earlier use on another grid) is not the grid's - the entry point has to bring it in line
+        iface = SafeModelCSimInterface(M) if case.get("safe") else ModelCSimInterface(M)
+        if case["bseed"] & 2:
+            iface.py_set_dt(dt * 3.0 + 0.125)
+    elif case.get("entry", "direct") == "direct" or mode == "delayvolume" or (case.get("vol") or {}).get("spec"):
         iface = SafeModelCSimInterface(M) if case.get("safe") else ModelCSimInterface(M)
         iface.py_set_dt(case.get("iface_dt", dt))
         if mode in ("volume", "delayvolume"):
@@ -116,7 +123,8 @@ def execute(case):
                     kwp["safe"] = bool(case.get("safe")) or pre == "safe"
                 if iface is not None and pre in ("ssa", "volume", "delay", "delayvolume"):
                     py_simulate_model(pg, Interface=iface, return_dataframe=False, **kwp)
-                    iface.py_set_dt(case.get("iface_dt", dt))
+                    if not via_entry_iface:
+                        iface.py_set_dt(case.get("iface_dt", dt))
                 else:
                     py_simulate_model(pg, Model=M, return_dataframe=False, **kwp)
             except Exception:
@@ -128,7 +136,11 @@ def execute(case):
     try:
         if mode in ("volume", "delayvolume") and iface is not None:
             vol_obj = build_volume(case, M, iface)
-        if mode == "ssa":
+        if via_entry_iface:
+            kwm = {"ssa": {}, "delay": {"delay": True}, "volume": {"volume": case["vol"]["v0"] if mode == "volume" else None}}[mode]
+            kwm = {k: v for k, v in kwm.items() if v is not None}
+            res = py_simulate_model(grid, Interface=iface, stochastic=True, return_dataframe=False, **kwm)
+        elif mode == "ssa":
             if iface is not None:
                 res = SSASimulator().py_simulate(iface, grid)
             else:
